@@ -2,7 +2,10 @@
 
 package slip
 
-import "strings"
+import (
+	"bytes"
+	"strings"
+)
 
 // SymbolSymbol is the symbol with a value of "symbol".
 const SymbolSymbol = Symbol("symbol")
@@ -30,8 +33,9 @@ func (obj Symbol) Readably(b []byte, p *Printer) []byte {
 	if obj[0] == ':' {
 		return append(b, p.caseName(string(obj))...)
 	}
+	quote := obj.looksLikeNumber()
 	for _, c := range []byte(obj) {
-		if needPipeMap[c] == 'x' {
+		if quote || needPipeMap[c] == 'x' {
 			b = append(b, '|')
 			for _, c := range []byte(p.caseName(string(obj))) {
 				if c == '|' || c == '\\' {
@@ -45,6 +49,26 @@ func (obj Symbol) Readably(b []byte, p *Printer) []byte {
 		}
 	}
 	return append(b, p.caseName(string(obj))...)
+}
+
+// looksLikeNumber returns true if the reader would take the symbol name, when
+// not written between |...|, for a number or for the dot of a dotted pair.
+func (obj Symbol) looksLikeNumber() bool {
+	switch c := obj[0]; {
+	case c == '.' && len(obj) == 1:
+		return true
+	case c == '+' || c == '-' || c == '.' || ('0' <= c && c <= '9'):
+		buf := bytes.ToLower([]byte(obj))
+		return intRxs[10].Match(buf) ||
+			decimalRegex.Match(buf) ||
+			eFloatRegex.Match(buf) ||
+			shortFloatRegex.Match(buf) ||
+			singleFloatRegex.Match(buf) ||
+			doubleFloatRegex.Match(buf) ||
+			longFloatRegex.Match(buf) ||
+			ratioRxs[10].Match(buf)
+	}
+	return false
 }
 
 // Simplify the Object into a string.
